@@ -122,7 +122,7 @@ CHECKS = {
     "C05": dict(
         category="exploration",
         technique="exhaustive enumeration of policy subsets x override x error kind x fault position against a one-line-per-flag outcome model",
-        text="All 63 non-empty subsets of {raise,collect,stop,fail,print,quiet}, set through config.ini or the config attribute, x 10 validation-mode settings x 5 error kinds (argument mismatch, function rule, Python exception, nested, right of ->) x 4 offending-line patterns x 3 component positions; each a real run whose exception/errors/is_valid/lines-run/printouts/returned lines are compared with the model. Quick: seeded sample covering every (policy, kind, override); thorough: the full product (75,600 runs).",
+        text="All 63 non-empty subsets of {raise,collect,stop,fail,print,quiet}, set through config.ini or the config attribute (config.ini may then say something else, raise included), x 15 validation-mode settings (4 of them combinations such as 'match, stop') x 7 error kinds (argument mismatch, function rule, Python exception, nested, right of ->, empty-string term, and a top-level function that rejects the offending value while benign lines alternate true/false) x {4 offending-line patterns x 3 component positions, header row at line 0, stop() on the offending line, last() action on a blank final line}; each a real run whose exception/errors/is_valid/lines-run/printouts/returned lines (under 'match' the offending lines must be returned) are compared with the model. Quick: seeded sample covering every (policy, kind, override), both routes for three settings; thorough: the full product (about 190,000 runs).",
         note="Trusted: vf/model/errpolicy.py. The count of error records per offending line is not fixed by the statement (>=1 required).",
         design="5 C05",
     ),
@@ -136,7 +136,7 @@ CHECKS = {
     "C14": dict(
         category="exploration",
         technique="exhaustive enumeration of qualifier subsets x value histories x rest-of-line patterns against a decision table",
-        text="All 256 subsets of the eight assignment qualifiers x all 3-value sequences of y over {absent,1,2,3} (+true/false without increase/decrease) x all 8 patterns of 'rest of the line matches', each a real 3-line run; x after every line and the set of returned lines are compared with vf/model/assign.py. The table is run again on a tracking variable (@x.<quals> with the tracking name first or last and the qualifier order reversed; 256 x {absent,1,2}^3 x 8), and an empty-cell family covers onmatch/latch/onchange/nocontrib with y drawn from {absent, empty cell, 1, 2}. Thorough is exhaustive over all three families (about 324,000 runs); quick is a seeded sample with every subset >=20 times.",
+        text="All 256 subsets of the eight assignment qualifiers x all 3-value sequences of y over {absent,1,2,3} (+true/false without increase/decrease) x all 8 patterns of 'rest of the line matches', each a real 3-line run; x after every line and the set of returned lines are compared with vf/model/assign.py. The table is run again on a tracking variable (@x.<quals> with the tracking name first or last and the qualifier order reversed; 256 x {absent,1,2}^3 x 8), and an empty-cell family covers onmatch/latch/onchange/nocontrib with y drawn from {absent, empty cell, 1, 2}. A zero family ({absent,0,1,2}) and a family whose rest of the line is a bare variable test written after the assignment complete it. Thorough is exhaustive over all five families (about 455,000 runs); quick is a seeded sample with every subset >=20 times.",
         note="Trusted: vf/model/assign.py. Where docs give two readings (latch with a blocking notnone/increase/decrease; a step where exactly one of x, y is an empty cell) both outcomes are admitted and counted.",
         design="5 C14",
     ),
